@@ -35,6 +35,11 @@ RULE = ("cases = corpus (defect witnesses, hand-written corner cases) + N random
         "fact changes and (map engines) `<name>_fired` markers set from outside or by another rule's action during a cycle in between; "
         "the clause `a no-loop rule NAME (every registration of the name is no-loop) fires at most once between resets` (C07.mhistOk / "
         "C07.histOk with C07.nameNoLoop) is evaluated over the whole history on each engine. "
+        "On top come N/16 MARKER-VALUE cases (`M U` / `M T`): the `<name>_fired` fact of a no-loop name holds a value drawn from a pool "
+        "(absent, \"true\", \"false\", \"\", \"0\", \"1\", \"TRUE\", \"True\", \" true\", \"true \", \"yes\"; typed engine also Boolean(true/false), "
+        "Integer(1/0), Null), set by the caller before the first fire_all, between calls, and by a rule's own / another rule's action "
+        "during a cycle, with 2..4 fire_all calls mostly without reset in between; what each engine reads as fired is C07.markerFired "
+        "(ReteUlEngine: exactly \"true\"; TypedReteUlEngine: FactValue::as_boolean() == Some(true)). "
         "Each case is run on the real code and on the Lean model; observations (returned activation, focus, stats after every call; "
         "fired list and final counters; per-call results of a history) are diffed, and the Spec predicates C07.runOk / C07.runOkWeak / "
         "C07.fireAllOk / C07.histOk are evaluated on the "
@@ -56,6 +61,10 @@ ASSUMPTIONS = [
     "named rule sets (`M`): a rule NAME counts as no-loop when every registration of that name is no-loop (with mixed flags the "
     "observations cannot tell the registrations apart); IncrementalEngine resolves a name to its FIRST registration when firing "
     "(that registration's condition re-validates the activation) — mirrored by the model (C07.incStaleN), not judged",
+    "map engines (`M U` / `M T`): the no-loop memory of a name IS its `<name>_fired` fact; overwriting that fact (set_fact by the caller, "
+    "or a rule's action) with a value the engine does not read as fired forgets the memory of that one name and is treated by the "
+    "oracle like a reset_fired_flags restricted to that name (C07.mhistOk marker clause, C07.clearedBy; conservative per NAME: any "
+    "registration of the firing name that carries such a write counts); the engine's own write after an action always wins",
     "IncrementalEngine engine cases use pairwise distinct priorities and no-op actions (creation order of activations of different "
     "rules comes from HashSet iteration); conflict-resolution strategies other than the Ord on Activation have no effect in the code "
     "(set_strategy re-sorts a temporary vector and rebuilds the same heaps) and are modelled as the identity",
@@ -78,7 +87,7 @@ def classify(case, impl, model, oracle, kind):
 LEVEL_TEXT = ("Lean 4 theorems (kernel-checked, unbounded: every agenda state / every history, every rule set and loop body) about an "
               "executable model of AdvancedAgenda and of the three fire_all loops: pop_is_max, drain_sorted, no_loop_once_between_resets, "
               "no_loop_once_engine_history (the same clause over any history of insert / update / retract / fire_all / reset calls on one IncrementalEngine, calls that stop at the bound included), "
-              "no_loop_once_named_history (the same clause per rule NAME over any history of fire_all / reset_fired_flags / set_fact calls on one TypedReteUlEngine or ReteUlEngine with any number of registrations per name), "
+              "no_loop_once_named_history (the same clause per rule NAME over any history of fire_all / reset_fired_flags / set_fact calls — `<name>_fired` facts set to any value by the caller or by actions included — on one TypedReteUlEngine or ReteUlEngine with any number of registrations per name), "
               "activation_group_once, focus_falls_back, fire_all_bounded for IncrementalEngine (at most 1000 executed activations; skipped ones are not counted after fix-C06b and terminate by agenda size: fire_all_skips_terminate), ReteUlEngine (100 passes, model after fix-C07c: the `<name>_fired` fact is honoured for no-loop rules) and "
               "TypedReteUlEngine (100 passes, after fix-C07), and model_meets_spec for the observation-level predicates; tied to the Rust "
               "code by a correspondence check (model vs implementation after every call) and by evaluating the same Spec predicates on "
